@@ -70,14 +70,14 @@ type Disk struct {
 	StFault   func(n int, op, file string, size int) (err error, short int)
 	StReadBad func(n int, file string, off int64, p []byte) error // may corrupt p in place or return an error
 	// snapshot the node's work_dir immediately before storage operation number StSnapAt (0: off)
-	StSnapAt   int64
-	StSnapTorn int    // for a write op: number of bytes of it that reach the file before the snapshot
-	StSnapDir  string // source
-	StSnapTo   string // destination
-	StSnapDone bool
-	SmallWB    bool // open databases with a tiny write buffer so that table files and compactions exist
-	KeepLog    bool
-	openDBs    int64
+	StSnapAt    int64
+	StSnapTorn  int    // for a write op: number of bytes of it that reach the file before the snapshot
+	StSnapDir   string // source
+	StSnapTo    string // destination
+	StSnapDone  bool
+	SmallWB     bool // open databases with a tiny write buffer so that table files and compactions exist
+	KeepLog     bool
+	openDBs     int64
 	openPaths   map[string]int
 	OpenedNames map[string]bool // base names of every directory that was successfully opened as a database in this run
 }
